@@ -239,8 +239,63 @@ func genC11(c *Ctx) {
 	} else {
 		c.Refuse("index: mergeSegmentBases not found")
 	}
+	// ---- Writer.Close: close() runs through s.closeOnce.Do (a sync.Once field), and Close returns after it
+	closeViaOnce := false
+	if cf := idx.Func("Writer.Close"); cf != nil && cf.Body != nil {
+		onceField := false
+		for _, file := range idx.Files {
+			ast.Inspect(file, func(m ast.Node) bool {
+				ts, ok := m.(*ast.TypeSpec)
+				if !ok || ts.Name.Name != "Writer" {
+					return true
+				}
+				if st, ok := ts.Type.(*ast.StructType); ok {
+					for _, fl := range st.Fields.List {
+						for _, nm := range fl.Names {
+							if nm.Name == "closeOnce" && selName(fl.Type) == "sync.Once" {
+								onceField = true
+							}
+						}
+					}
+				}
+				return false
+			})
+		}
+		doPos, callsCloseInside := token.NoPos, false
+		for _, x := range callsIn(cf.Body) {
+			if strings.HasSuffix(x.name, ".closeOnce.Do") {
+				doPos = x.end
+				for _, y := range callsIn(x.call) {
+					if strings.HasSuffix(y.name, ".close") {
+						callsCloseInside = true
+					}
+				}
+			} else if strings.HasSuffix(x.name, ".close") && !(doPos != token.NoPos && x.pos < doPos) {
+				callsCloseInside = false // close() is also called outside the Once
+				onceField = false
+			}
+		}
+		retAfter, retBefore := false, false
+		ast.Inspect(cf.Body, func(m ast.Node) bool {
+			if _, ok := m.(*ast.FuncLit); ok {
+				return false
+			}
+			if r, ok := m.(*ast.ReturnStmt); ok {
+				if doPos != token.NoPos && r.Pos() > doPos {
+					retAfter = true
+				} else {
+					retBefore = true
+				}
+			}
+			return true
+		})
+		closeViaOnce = onceField && doPos != token.NoPos && callsCloseInside && retAfter && !retBefore
+	} else {
+		c.Refuse("index: (*Writer).Close not found")
+	}
 	ncm, cmErr := loadSnapshotsCommitFacts(c, idx)
 	fmt.Fprintf(&b, "/-- loadSnapshots: number of deletionPolicy.Commit calls, and whether one of them lies in an error branch -/\ndef loadCommitCalls : Nat := %d\ndef loadCommitOnErr : Bool := %s\n", ncm, leanBool(cmErr))
+	fmt.Fprintf(&b, "/-- Writer.Close runs close() inside s.closeOnce.Do (closeOnce a sync.Once field of Writer) and returns only after it -/\ndef closeViaOnce : Bool := %s\n", leanBool(closeViaOnce))
 	fmt.Fprintf(&b, "/-- Writer.close: number of return statements between asyncTasks.Wait() and directory.Unlock() -/\ndef closeReturnsBeforeUnlock : Nat := %d\n", closeReturnsBeforeUnlock)
 	fmt.Fprintf(&b, "/-- mergeSegmentBases: where the reference from loadSegment(newSegmentID) is released (seg.Close / seg.DecRef) -/\ndef memMergeReleases : List String := %s\n", leanStrs(memMergeReleases))
 	b.WriteString("\nend BlugeGen.C11\n")
